@@ -7,11 +7,11 @@ from vp import gen, build
 from vp.core import SubCheck
 
 RULE = ("Cases: pairs (a, b) of generated curves/surfaces/volumes: b a deep copy of a, or a with exactly one component "
-        "changed by >= 1e-3 (one control point coordinate, one weight with or without the weighted coordinates, one "
+        "changed by >= 1e-5 (one control point coordinate, one weight with or without the weighted coordinates, one "
         "interior knot moved inside its neighbours, one degree with a valid redefinition), or a shape of another kind / "
         "rationality built from identical data; oracle = reflexivity, symmetry, != is the negation of ==, copies equal, "
         "any single change makes them unequal.")
-ASSUMPTIONS = ["changes are >= 1e-3 and 'equal' pairs are bit-identical, so the verdict does not depend on the tolerance chosen by __eq__"]
+ASSUMPTIONS = ["changes are >= 1e-5 and 'equal' pairs are bit-identical, so the verdict is the same for every comparison tolerance <= 1e-6; the tolerance value itself (documented: 10**-precision) is deliberately not pinned"]
 
 CHANGES = ["coordinate", "weight", "weight-only-w", "knot", "degree", "size", "kind", "rationality", "rationality-dim", "none"]
 
